@@ -42,9 +42,70 @@ RULE = ("squfof directly on u64: first the repaired-defect regression lines (n*k
         "size, p^3, p^2*q, numbers just below 2^64, random words of every length; K on every case, both profiles")
 
 W = 1 << 64
-# prime cubes that succeed only in a late round (found with the model's trace): 137^3 k=44, 151^3 k=48, 173^3 k=49, 163^3 k=50
-# (a loop bound 1..=49 instead of 1..=50 changes only the last one; odd semiprimes never got beyond round 23 in 300k trials)
-LATE = [2571353, 3442951, 5177717, 4330747]
+# ROUND / ITERATION-LIMIT TABLE (generated once with the model's `squfof_trace` and an instrumented mirror; literal, yielded first).
+# ROUNDS[k]: inputs whose run DECIDES in multiplier round k (a split found with multiplier k), up to three sizes (~20 / ~40 / ~58 bits)
+# where such inputs exist. Sources: every n < 2.8e7 exhaustively, 300k semiprimes, all cubes x^3 < 2^58, x^3*y, x^2*y, x^5, x^7 families.
+# Late rounds almost never decide: rounds 28, 34, 36, 37, 40, 41, 43, 45, 46, 47 have NO decider in all of that, and 163^3 = 4330747 is the
+# ONLY input found that decides in round 50 (173^3: round 49, 151^3: 48) - a loop bound 1..50 is observable on that single input only.
+# EXHAUSTED_COMPOSITES: composites that run all 50 rounds and return None. LAST_ALLOWED_1: first cycle breaks at i = iters - 1.
+# ONE_MORE_1 / ONE_LESS_1: the answer changes when the first cycle is allowed one more / one less iteration (first rejected / last
+# accepted index). Second cycle: no input exists (n < 7e5 exhaustively: its break index stays below 0.8 * iters), its limit is never reached.
+ROUNDS = {
+    2: [590965, 552614471995, 154796152756229447],
+    3: [591251, 568281535007, 148520634434090189],
+    4: [592001, 587333136967, 155441607031157723],
+    5: [591011, 563152052857, 167853566803997047],
+    6: [591401, 580937454137, 160741831793320691],
+    7: [589007, 584193721649, 160760221928813587],
+    8: [2232679, 710805054457, 239679807479941331],
+    9: [2345789, 642339160097, 721],
+    10: [2223961, 625200602197, 133640726151461951],
+    11: [2125441, 589622969651, 151605571506647683],
+    12: [2094539, 435788891677, 213972844256561251],
+    13: [2272741, 590719680689, 110239775126895503],
+    14: [2219459, 636194190253, 13],
+    15: [2168053, 576500578373, 209957876650888253],
+    16: [2089499, 1008691, 1884697],
+    17: [1922513, 346435624019, 61489],
+    18: [2107517, 17, 1036999],
+    19: [1280011, 772354598891, 148877],
+    20: [16827509, 19, 226981],
+    21: [15185561, 1165253, 1279723],
+    22: [13431097, 906530026183, 300763],
+    23: [14561069, 323153, 571787],
+    24: [389017, 23, 357911],
+    25: [4833053, 704969, 15271819],
+    26: [10031339, 966487, 2143681],
+    27: [20894101, 6185183],
+    28: [],
+    29: [25223581],
+    30: [1092727, 29, 912673],
+    31: [1295029],
+    32: [31],
+    33: [1030301],
+    34: [],
+    35: [2048383],
+    36: [],
+    37: [],
+    38: [37],
+    39: [2248091, 1225043, 2685619],
+    40: [],
+    41: [],
+    42: [3307949, 41, 3869893],
+    43: [],
+    44: [2571353, 43],
+    45: [],
+    46: [],
+    47: [],
+    48: [3442951, 47],
+    49: [5177717],
+    50: [4330747],
+}
+EXHAUSTED_COMPOSITES = [4657463, 64481201, 68417929, 8477185319, 34359822251, 4089091887271, 27869663642360203, 288211412197487323]
+LAST_ALLOWED_1 = [22, 57, 58, 302, 334, 366, 4006, 6009, 6242, 12196, 498605, 545039, 548463, 549577, 555971, 557343, 560695, 565291]
+ONE_MORE_1 = [1143, 16998, 20312, 30484, 54650, 59078, 85214, 88986, 91110, 94025, 100420, 136058, 141468, 144951, 147394, 152552, 155670, 194692, 1004516, 1012670, 1026110, 1028810, 1038796, 1048326]
+ONE_LESS_1 = [366, 5524, 11374, 13114, 24742, 25982, 41390, 45222, 50118, 69016, 78654, 95371, 115078, 119608, 123028, 162242, 173830, 178310, 185127, 190742, 1070234, 1090078, 1099154, 30015970]
+LATE = sorted({n for v in ROUNDS.values() for n in v} | set(EXHAUSTED_COMPOSITES) | set(LAST_ALLOWED_1) | set(ONE_MORE_1) | set(ONE_LESS_1))
 # REPAIRED DEFECT (fix f24afb6 in /repo): these direct calls divided by zero (squfof.rs:33, both profiles) because n*k is a perfect
 # square for a multiplier k >= 2; the round is skipped now. Regression lines, run first: every prime <= 47, 2*m^2 shapes, all
 # n < 2^16 that panicked, the 33-bit and 63-bit witnesses.
@@ -103,8 +164,13 @@ def cases(tier, rng, extended=False):
             seen.add(n)
             yield mk(n, tag)
 
-    for n in LATE:
-        yield from emit(n, "late-round")
+    for k, v in ROUNDS.items():
+        for n in v:
+            yield from emit(n, f"round-table/k={k}")
+    for n in EXHAUSTED_COMPOSITES:
+        yield from emit(n, "round-table/exhausted")
+    for n in LAST_ALLOWED_1 + ONE_MORE_1 + ONE_LESS_1:
+        yield from emit(n, "round-table/iters")
     for n in REPAIRED:
         yield from emit(n, "repaired")
     # 1. exhaustive small n
